@@ -154,6 +154,32 @@ Section WalkFacts.
       eapply le_trans; [eapply walk_le; exact W2|apply IHr; exact WL].
   Qed.
 
+  (* Enough fuel suffices: if every path below p is shorter than the fuel, the walk never reports
+     WeFuel (the callback only removes entries, so the bound stays valid while it runs). *)
+  Hypothesis on_file_nofuel : forall pstr p x x' e, on_file pstr p x = (x', e) -> e <> Some WeFuel.
+
+  Lemma walk_fuel : forall fuel pstr p isdir x x' e,
+    stat p (fs_of x) <> None ->
+    (forall q en, stat (p ++ q) (fs_of x) = Some en -> length q < fuel) ->
+    walk fs_of on_file fuel pstr p isdir x = (x', e) -> e <> Some WeFuel.
+  Proof.
+    induction fuel as [|f IH]; intros pstr p isdir x x' e Ex B W.
+    - exfalso. destruct (stat p (fs_of x)) as [en|] eqn:S; [|congruence].
+      specialize (B [] en). rewrite app_nil_r in B. specialize (B S). cbn in B. lia.
+    - cbn [walk] in W. destruct isdir; [|eapply on_file_nofuel; eauto].
+      destruct (readdir p (fs_of x)) as [names|er]; [|inversion W; discriminate].
+      assert (Loop : forall names0 y, le x y -> walk_loop fs_of (walk fs_of on_file f) pstr p names0 y = (x', e) -> e <> Some WeFuel).
+      { induction names0 as [|n r IHn]; intros y L WL; cbn [walk_loop] in WL; [inversion WL; discriminate|].
+        destruct (lookup (p ++ [n]) (fs_of y)) as [c|] eqn:Lk; [|inversion WL; discriminate].
+        destruct (walk fs_of on_file f (join_str pstr n) (p ++ [n]) (node_is_dir c) y) as [y1 [e1|]] eqn:W1.
+        - inversion WL; subst. eapply (IH _ _ _ _ _ _ _ _ W1).
+        - eapply IHn; [|exact WL]. eapply le_trans; [exact L|eapply walk_le; exact W1]. }
+      eapply Loop; [apply le_refl|exact W].
+      Unshelve.
+      + unfold stat. rewrite Lk. discriminate.
+      + intros q en S. apply (le_fs _ _ L) in S. rewrite <- app_assoc in S. specialize (B _ _ S). cbn in B. lia.
+  Qed.
+
   (* Whatever non-directory is still there after a walk that returned nil has been handed to the
      callback, and the callback left it in place.  Inv is any invariant of the callback; Good is
      what the callback establishes for a path it leaves in place, stable along le. *)
@@ -212,12 +238,13 @@ End WalkFacts.
 (* ---------- LocalStore.Prune ---------- *)
 
 Section PruneProofs.
+  Variable tmp_rule : bool.      (* true: LocalStore.Prune, false: SFTPStore.Prune *)
   Variable st : store.
   Variable keep : id -> bool.
 
   (* what Prune may remove: a temp-named entry, or the canonical own-format name of an id outside keep *)
   Definition removable (q : path) : Prop :=
-    is_tmp (last q []) = true \/ exists i, wf_id i /\ keep i = false /\ q = canon st i.
+    (tmp_rule = true /\ is_tmp (last q []) = true) \/ exists i, wf_id i /\ keep i = false /\ q = canon st i.
 
   Lemma remove_chunk_ok i s s' : remove_chunk st i s = RmOk s' ->
     remove (canon st i) s = Ok s' /\ stat (canon st i) s <> None.
@@ -235,12 +262,13 @@ Section PruneProofs.
   Qed.
 
   (* one callback: nothing, or exactly one removal of a removable path *)
-  Lemma prune_file_step pstr p s s' e : prune_file st keep pstr p s = (s', e) ->
+  Lemma prune_file_step pstr p s s' e : prune_file_gen tmp_rule st keep pstr p s = (s', e) ->
     s' = s \/ exists t, remove t s = Ok s' /\ removable t /\ stat t s <> None.
   Proof.
-    unfold prune_file. destruct (has_prefix (last p []) tmpChunkPrefix_bytes) eqn:T.
+    unfold prune_file_gen. destruct (tmp_rule && has_prefix (last p []) tmpChunkPrefix_bytes) eqn:T.
     - destruct (remove p s) as [s1|er] eqn:R; intros E; inversion E; subst; [|now left].
-      right. exists p. split; [exact R|]. split; [now left|].
+      apply andb_true_iff in T. destruct T as [T1 T2].
+      right. exists p. split; [exact R|]. split; [left; split; [exact T1|exact T2]|].
       unfold remove in R. unfold stat, lookup. destruct (resolve p s) as [n|er] eqn:RS; [discriminate|].
       exfalso. unfold unlink in R. destruct (stat_upd_point _ _ _ _ R) as (r & F & _).
       unfold lookup in F. rewrite RS in F. discriminate.
@@ -253,7 +281,7 @@ Section PruneProofs.
       eapply unhex_id_wf; eauto.
   Qed.
 
-  Lemma prune_file_mono pstr p s s' e : prune_file st keep pstr p s = (s', e) -> mono s s'.
+  Lemma prune_file_mono pstr p s s' e : prune_file_gen tmp_rule st keep pstr p s = (s', e) -> mono s s'.
   Proof.
     intros E. destruct (prune_file_step _ _ _ _ _ E) as [->|(t & R & _)]; [apply mono_refl|].
     intros q en. rewrite (remove_stat _ _ _ R). destruct (path_eqb q t); [discriminate|tauto].
@@ -263,7 +291,7 @@ Section PruneProofs.
     forall q, stat q s = stat q s0 \/ (stat q s = None /\ stat q s0 <> None /\ removable q).
 
   Lemma prune_file_safe s0 pstr p s s' e :
-    safe_rel s0 s -> prune_file st keep pstr p s = (s', e) -> safe_rel s0 s'.
+    safe_rel s0 s -> prune_file_gen tmp_rule st keep pstr p s = (s', e) -> safe_rel s0 s'.
   Proof.
     intros I E. destruct (prune_file_step _ _ _ _ _ E) as [->|(t & R & Rm & N)]; [exact I|].
     intros q. rewrite (remove_stat _ _ _ R). destruct (path_eqb q t) eqn:Q; [|apply I].
@@ -273,10 +301,10 @@ Section PruneProofs.
 
   (* prune_safe *)
   Lemma prune_safe fuel bstr s0 s' e :
-    prune fuel st bstr keep s0 = (s', e) ->
+    prune_gen tmp_rule fuel st bstr keep s0 = (s', e) ->
     forall q, stat q s' = stat q s0 \/ (stat q s' = None /\ stat q s0 <> None /\ removable q).
   Proof.
-    unfold prune, walk_root. destruct (lookup (st_base st) s0) as [c|]; [|intros E; inversion E; now left].
+    unfold prune_gen, walk_root. destruct (lookup (st_base st) s0) as [c|]; [|intros E; inversion E; now left].
     intros W. refine (walk_inv (fun s => s) _ (safe_rel s0) _ fuel bstr _ _ s0 s' e _ W).
     - intros. eapply prune_file_safe; eauto.
     - intros q. now left.
@@ -285,17 +313,17 @@ Section PruneProofs.
   (* the callback left p in place: p is not temp-named, and if its name parses to an id outside keep
      then p is not that id's canonical path, which existed in the store *)
   Definition good (s0 : node) (p : path) : Prop :=
-    is_tmp (last p []) = false /\
+    (tmp_rule = true -> is_tmp (last p []) = false) /\
     forall i, base_file_id (st_unc st) (last p []) = Some i ->
               keep i = true \/ (p <> canon st i /\ stat (canon st i) s0 <> None).
 
   Lemma prune_file_good s0 dstr p s s' :
     p <> [] -> is_dir (stat p s) = false ->
-    mono s0 s -> prune_file st keep (join_str dstr (last p [])) p s = (s', None) ->
+    mono s0 s -> prune_file_gen tmp_rule st keep (join_str dstr (last p [])) p s = (s', None) ->
     stat p s' <> None -> good s0 p.
   Proof.
-    unfold prune_file, good, is_tmp. rewrite chunk_file_id_base. intros Hp Nd M.
-    destruct (has_prefix (last p []) tmpChunkPrefix_bytes) eqn:T.
+    unfold prune_file_gen, good, is_tmp. rewrite chunk_file_id_base. intros Hp Nd M.
+    destruct (tmp_rule && has_prefix (last p []) tmpChunkPrefix_bytes) eqn:T.
     - destruct (remove p s) as [s1|er] eqn:R; intros E; inversion E; subst; intros N.
       + rewrite (remove_stat _ _ _ R), path_eqb_refl in N. congruence.
       + exfalso. destruct (stat p s') as [en|] eqn:S; [|congruence].
@@ -303,7 +331,7 @@ Section PruneProofs.
         unfold remove in R. unfold stat, lookup in S.
         destruct (resolve p s') as [[m l|m b|m t]|e0]; try congruence.
         cbn in S. inversion S; subst. discriminate.
-    - intros E N. split; [reflexivity|]. intros i B. rewrite B in E.
+    - intros E N. split; [intros ->; exact T|]. intros i B. rewrite B in E.
       destruct (keep i) eqn:K; [now left|]. right.
       destruct (remove_chunk st i s) as [s1| |er] eqn:R; inversion E; subst.
       apply remove_chunk_ok in R. destruct R as [R Ex]. split.
@@ -311,15 +339,39 @@ Section PruneProofs.
       + destruct (stat (canon st i) s) eqn:S1; [|congruence]. rewrite (M _ _ S1). discriminate.
   Qed.
 
+  Lemma prune_file_nofuel pstr p s s' e : prune_file_gen tmp_rule st keep pstr p s = (s', e) -> e <> Some WeFuel.
+  Proof.
+    unfold prune_file_gen. destruct (tmp_rule && has_prefix (last p []) tmpChunkPrefix_bytes).
+    - intros E; inversion E; discriminate.
+    - destruct (chunk_file_id (st_unc st) pstr (last p [])); [|intros E; inversion E; discriminate].
+      destruct (keep i); [intros E; inversion E; discriminate|].
+      destruct (remove_chunk st i s); intros E; inversion E; discriminate.
+  Qed.
+
+  (* a recursion budget above the depth of the store never runs out *)
+  Lemma prune_fuel_suffices fuel bstr s0 :
+    (forall q en, stat (st_base st ++ q) s0 = Some en -> length q < fuel) ->
+    snd (prune_gen tmp_rule fuel st bstr keep s0) <> Some WeFuel.
+  Proof.
+    intros B. unfold prune_gen, walk_root. destruct (lookup (st_base st) s0) as [c|] eqn:L; [|discriminate].
+    destruct (walk (fun s => s) (prune_file_gen tmp_rule st keep) fuel bstr (st_base st) (node_is_dir c) s0) as [s' e] eqn:W.
+    cbn [snd].
+    refine (walk_fuel (fun s => s) (prune_file_gen tmp_rule st keep) mono mono_refl mono_trans (fun _ _ M => M) _ _
+              fuel bstr (st_base st) (node_is_dir c) s0 s' e _ B W).
+    - intros. eapply prune_file_mono; eauto.
+    - intros. eapply prune_file_nofuel; eauto.
+    - unfold stat. rewrite L. discriminate.
+  Qed.
+
   (* every non-directory below the base that is still there after a prune that returned nil is good *)
   Lemma prune_post fuel bstr s0 s' :
     is_dir (stat (st_base st) s0) = true ->
-    prune fuel st bstr keep s0 = (s', None) ->
+    prune_gen tmp_rule fuel st bstr keep s0 = (s', None) ->
     forall t en, stat (st_base st ++ t) s' = Some en -> is_dir (Some en) = false -> good s0 (st_base st ++ t).
   Proof.
-    unfold prune, walk_root. intros D. destruct (lookup (st_base st) s0) as [c|] eqn:L; [|discriminate].
+    unfold prune_gen, walk_root. intros D. destruct (lookup (st_base st) s0) as [c|] eqn:L; [|discriminate].
     intros W.
-    refine (walk_post (fun s => s) (prune_file st keep) mono mono_refl mono_trans (fun _ _ M => M) _
+    refine (walk_post (fun s => s) (prune_file_gen tmp_rule st keep) mono mono_refl mono_trans (fun _ _ M => M) _
               (mono s0) _ (fun _ => good s0) (fun _ _ _ _ G => G) _
               fuel bstr (st_base st) (node_is_dir c) s0 s' (mono_refl _) _ _ W).
     - intros. eapply prune_file_mono; eauto.
@@ -332,9 +384,10 @@ Section PruneProofs.
   (* prune_complete *)
   Lemma prune_complete fuel bstr s0 s' :
     is_dir (stat (st_base st) s0) = true ->
-    prune fuel st bstr keep s0 = (s', None) ->
+    prune_gen tmp_rule fuel st bstr keep s0 = (s', None) ->
     (forall i en, wf_id i -> keep i = false -> stat (canon st i) s' = Some en -> is_dir (Some en) = true) /\
-    (forall t en, stat (st_base st ++ t) s' = Some en -> is_tmp (last (st_base st ++ t) []) = true -> is_dir (Some en) = true).
+    (tmp_rule = true ->
+     forall t en, stat (st_base st ++ t) s' = Some en -> is_tmp (last (st_base st ++ t) []) = true -> is_dir (Some en) = true).
   Proof.
     intros D P. split.
     - intros i en W K S. destruct (is_dir (Some en)) eqn:Nd; [reflexivity|exfalso].
@@ -342,8 +395,8 @@ Section PruneProofs.
       pose proof (prune_post _ _ _ _ D P _ _ S Nd) as [_ G].
       rewrite app_assoc in G. change ((st_base st ++ [firstn 4 (hex_id i)]) ++ [hex_id i ++ ext_of (st_unc st)]) with (canon st i) in G.
       rewrite last_canon in G. destruct (G i (base_file_id_canonical _ _ W)) as [K'|[N _]]; congruence.
-    - intros t en S T. destruct (is_dir (Some en)) eqn:Nd; [reflexivity|exfalso].
-      pose proof (prune_post _ _ _ _ D P _ _ S Nd) as [G _]. congruence.
+    - intros TR t en S T. destruct (is_dir (Some en)) eqn:Nd; [reflexivity|exfalso].
+      pose proof (prune_post _ _ _ _ D P _ _ S Nd) as [G _]. specialize (G TR). congruence.
   Qed.
 
   (* prune_stray_name_errors: a file whose name parses to an id outside keep while that id's canonical
@@ -351,17 +404,17 @@ Section PruneProofs.
   Lemma prune_stray_errors fuel bstr s0 t en i :
     is_dir (stat (st_base st) s0) = true ->
     stat (st_base st ++ t) s0 = Some en -> is_dir (Some en) = false ->
-    is_tmp (last (st_base st ++ t) []) = false ->
+    (tmp_rule = true -> is_tmp (last (st_base st ++ t) []) = false) ->
     base_file_id (st_unc st) (last (st_base st ++ t) []) = Some i -> keep i = false ->
     stat (canon st i) s0 = None ->
-    snd (prune fuel st bstr keep s0) <> None.
+    snd (prune_gen tmp_rule fuel st bstr keep s0) <> None.
   Proof.
-    intros D S Nd T B K C. destruct (prune fuel st bstr keep s0) as [s' e] eqn:P. cbn [snd].
+    intros D S Nd T B K C. destruct (prune_gen tmp_rule fuel st bstr keep s0) as [s' e] eqn:P. cbn [snd].
     destruct e; [discriminate|]. exfalso.
-    destruct (prune_safe _ _ _ _ _ P (st_base st ++ t)) as [Eq|(_ & _ & [Tm|(j & Wj & Kj & Ej)])].
+    destruct (prune_safe _ _ _ _ _ P (st_base st ++ t)) as [Eq|(_ & _ & [[TR Tm]|(j & Wj & Kj & Ej)])].
     - rewrite S in Eq. pose proof (prune_post _ _ _ _ D P _ _ Eq Nd) as [_ G].
       destruct (G i B) as [K'|[_ N]]; congruence.
-    - unfold is_tmp in *. congruence.
+    - specialize (T TR). unfold is_tmp in *. congruence.
     - rewrite Ej, last_canon, (base_file_id_canonical _ _ Wj) in B. inversion B; subst j.
       rewrite Ej in S. congruence.
   Qed.
